@@ -238,4 +238,42 @@ Proof.
     + intros Hk. destruct (i_used _ I _ _ Hk). split; lia.
 Qed.
 
+Definition same_but_threads (x x' : st) : Prop :=
+  cmem x' = cmem x /\ chnd x' = chnd x /\ iids x' = iids x /\ cver x' = cver x /\
+  g_sum x' = g_sum x /\ g_cnt x' = g_cnt x /\ g_per x' = g_per x.
+
+Lemma local_spec : forall x t s x' s' k, inv x -> t_alive (thr x t) = true -> local cf x t s = (x', (s', k)) ->
+  inv x' /\ s' = s /\ t_tid (thr x' t) = Some k /\ (k < csize x' s)%nat /\ (k < nxt (tids x'))%nat /\
+  same_but_threads x x' /\ (nxt (tids x) <= nxt (tids x'))%nat /\
+  (forall u, u <> t -> thr x' u = thr x u) /\ t_alive (thr x' t) = true /\
+  (forall k0, t_tid (thr x t) = Some k0 -> k = k0).
+Proof.
+  intros x t s x' s' k I Hal. unfold local.
+  destruct (local_fast_hit _ _) eqn:Eh.
+  - intros H; inversion H; subst; clear H. apply g_hit, Nat2Z.inj in Eh.
+    destruct (i_cache _ I _ _ Eh) as (A & B & C). destruct (i_tid _ I _ _ B) as (D & _ & _).
+    Show. unfold same_but_threads. rewrite <- H2 in *. cbn in *. subst s'. repeat split; auto. intros k0 E. congruence.
+  - destruct (t_tid (thr x t)) as [k0|] eqn:Et.
+    + intros H; inversion H; subst; clear H. fold (miss_state x t s k (tids x)).
+      destruct (i_tid _ I _ _ Et) as (A & B & C).
+      split; [apply miss_inv; auto|].
+      * apply (i_fre_nd _ I).
+      * intros u k1 Hu E F. subst k1. apply Hu. eapply (i_tid_inj _ I); eauto.
+      * unfold miss_state, same_but_threads; cbn. unfold upd. rewrite !Nat.eqb_refl. cbn.
+        repeat split; auto; try (apply (ensure_gt (cB cf) (csize x s) k HB)).
+        -- intros u Hu. destruct (Nat.eqb_spec u t); [contradiction|reflexivity].
+        -- intros k0 E. congruence.
+    + destruct (id_alloc (tids x)) as [k0 a'] eqn:Ea. intros H; inversion H; subst; clear H.
+      fold (miss_state x t s k a').
+      destruct (alloc_spec _ _ _ (i_fre _ I) (i_fre_nd _ I) Ea) as (A1 & A2 & A3 & A4 & A5 & A6 & A7).
+      split; [apply miss_inv; auto|].
+      * intros u k1 Hu E F. subst k1. destruct (i_tid _ I _ _ E) as (B1 & B2 & B3).
+        destruct A7 as [[A7 _]|[A7 _]]; [contradiction|lia].
+      * destruct A7 as [[_ ->]|[_ [-> _]]]; auto.
+      * unfold miss_state, same_but_threads; cbn. unfold upd. rewrite !Nat.eqb_refl. cbn.
+        repeat split; auto; try (apply (ensure_gt (cB cf) (csize x s) k HB)).
+        -- intros u Hu. destruct (Nat.eqb_spec u t); [contradiction|reflexivity].
+        -- intros k0 E. congruence.
+Qed.
+
 End Inv.
